@@ -309,6 +309,21 @@ def api_readout(ctx, nbuilds):
             refmetrics.REPORTED["__tmp__"] = (lambda x, y, base=base, refkw=refkw: base(x, y, **refkw))
             metric_ref = "__tmp__"
         why = check_graph(metric_ref if kwds else metric, Xref, gi, gd, n, k)
+        if why is None and rng.random() < 0.6:
+            # the graph an index exposes must stay the same graph after prepare()/query()
+            try:
+                with warnings.catch_warnings():
+                    warnings.simplefilter("ignore")
+                    idx.prepare()
+                    idx.query(data[:2], k=min(k, 3))
+                    gi2, gd2 = idx.neighbor_graph
+                if not (np.array_equal(gi, gi2) and np.array_equal(gd.view(np.uint32), gd2.view(np.uint32))):
+                    why = check_graph(metric_ref if kwds else metric, Xref, gi2, gd2, n, k) or \
+                        "neighbor_graph changed after prepare()/query() (%d entries differ)" % int((gd.view(np.uint32) != gd2.view(np.uint32)).sum())
+                    why = "after prepare()+query(): " + why
+                    gi, gd = gi2, gd2
+            except Exception as e:
+                ctx.notes.setdefault("prepare_errors", []).append("%s sparse=%s: %s" % (metric, sparse, str(e)[:100]))
         ctx.nontrivial.add(("readout", metric, sparse, kind, n, k))
         if len(ctx.samples) < 8:
             ctx.sample(dict(stream="api-readout", metric=metric, metric_kwds=str(kwds), data=kind, sparse=sparse, n=n, k=k, verdict=why or "ok"))
